@@ -60,4 +60,51 @@ def fitToSize (r : Rat → Rat) (f : FitTo) (s : Nat × Nat) : Option (Nat × Na
   | .size w h => (intSize w h).map (fun t => scaleTo r s t)
   | .zoom z => scaleBy r s z
 
+/-- `FitTo::fit_to_transform`: the two scale factors (identity when the size is refused) -/
+def fitToScale (r : Rat → Rat) (f : FitTo) (s : Nat × Nat) : Rat × Rat :=
+  match fitToSize r f s with
+  | some o => (r ((o.1 : Rat) / s.1), r ((o.2 : Rat) / s.2))
+  | none => (1, 1)
+
+/-- `as i32` of a float: truncation toward zero -/
+def truncI (q : Rat) : Int := if 0 ≤ q then q.floor else -((-q).floor)
+
+/-- what `render_svg` does with `--export-id`: the size of the written image, the scale the object is
+    rendered with, and where the object's box `(bx, by, bw, bh)` (its absolute layer box) is placed -/
+structure ExportPlan where
+  canvas : Nat × Nat
+  scale : Rat × Rat
+  offset : Int × Int
+  deriving DecidableEq, Repr
+
+/-- `render_svg`, export branch: the size options apply to the exported area — the object, or the page
+    with `--export-area-page`; the object is placed at its box in output pixels -/
+def exportPlan (r : Rat → Rat) (f : FitTo) (page : Nat × Nat) (bx by_ bw bh : Rat) (areaPage : Bool) :
+    Option ExportPlan :=
+  let area := if areaPage then page else toIntSize bw bh
+  match fitToSize r f area with
+  | none => none
+  | some size =>
+    let sc := fitToScale r f area
+    some { canvas := size, scale := sc,
+           offset := if areaPage then (truncI (r (bx * sc.1)), truncI (r (by_ * sc.2))) else (0, 0) }
+
+/-- the export branch before fix 082ba5b: the canvas is fitted to the object, the scale to the page, and
+    with `--export-area-page` the object is placed at its *unscaled* offset -/
+def exportPlanOld (r : Rat → Rat) (f : FitTo) (page : Nat × Nat) (bx by_ bw bh : Rat) (areaPage : Bool) :
+    Option ExportPlan :=
+  match fitToSize r f (toIntSize bw bh) with
+  | none => none
+  | some nodeSize =>
+    let sc := fitToScale r f page
+    if areaPage then
+      match fitToSize r f page with
+      | none => none
+      | some size => some { canvas := size, scale := sc, offset := (truncI bx, truncI by_) }
+    else some { canvas := nodeSize, scale := sc, offset := (0, 0) }
+
+/-- the pixel box the object's box covers in the written image: `offset + [0, bw·sx] × [0, bh·sy]` -/
+def ExportPlan.painted (p : ExportPlan) (bw bh : Rat) : Int × Int × Int × Int :=
+  (p.offset.1, p.offset.2, p.offset.1 + ceilI (bw * p.scale.1), p.offset.2 + ceilI (bh * p.scale.2))
+
 end Resvg.Cli
